@@ -167,3 +167,19 @@ LEVEL_TEXT["C07"] = {
     "note": "Schedules sampled from generated tapes; pika::condition_variable with pika::mutex needs task ids and is exercised only in the real-runtime programs of C01/C02 (event kinds mutex_cv / timed_cv, channels cv+pika::mutex).",
     "technique": "property-based testing with harness-owned deterministic schedules (virtual threads), deadlock-as-lost-notification oracle",
 }
+
+PROPS["C14"] = {
+    "targets": [seq("props/C14_stop_history.cpp", 20000, 50, 300000, 600, shards=6)],
+    "rule": "history part: case = 1..24 commands over 4 stop_source slots, 4 stop_token slots and 6 stop_callback slots (construct, nostopstate, "
+            "copy/move construct, copy/move/self assign, swap, destroy, get_token, request_stop, register callback whose body may destroy itself, "
+            "destroy another callback or register a further one, deregister); after every command stop_possible()/stop_requested() of every live "
+            "handle, request_stop() results and callback run counts are compared with a reference model; non-trivial iff the history assigns "
+            "over a source that owned a different state or has a callback body action. race part (E-vt): see per_target; distinct by hash",
+    "floor": {"quick": 200, "thorough": 2000},
+    "assumptions": ["self-move-assignment is not generated", "callbacks destroyed by other callbacks during request_stop are only required to run at most once"],
+}
+LEVEL_TEXT["C14"] = {
+    "text": "Model-based property testing of copy/move/assign/swap/destroy histories of stop_source, stop_token and stop_callback against a reference model of stop states (source counts, requested flag, registered callbacks), plus generated deterministic schedules (virtual threads) for the races between request_stop, callback registration and deregistration with exactly-once / not-after-destruction / destructor-waits oracles.",
+    "note": "History part is sequential; race part explores SC interleavings at hook and agent granularity from generated tapes.",
+    "technique": "model-based property testing (operation histories vs reference model) + harness-owned schedules for the races",
+}
